@@ -29,26 +29,26 @@ type chanCase struct {
 }
 
 type waitState struct {
-	cases   []chanCase // channel operations this goroutine is blocked on (select or single op)
-	mutex   *mutexState
-	rlock   bool
-	fired   int // index of the case completed by a partner, -1 while waiting
-	recvVal Value
-	recvOk  bool
+	cases      []chanCase // channel operations this goroutine is blocked on (select or single op)
+	mutex      *mutexState
+	rlock      bool
+	fired      int // index of the case completed by a partner, -1 while waiting
+	recvVal    Value
+	recvOk     bool
 	sleepUntil int64
-	custom  func() bool // generic wait condition (re-evaluated by the scheduler)
-	what    string
+	custom     func() bool // generic wait condition (re-evaluated by the scheduler)
+	what       string
 }
 
 type G struct {
-	id      int
-	state   gState
-	wake    chan struct{}
-	top     *Frame
-	wait    *waitState
-	name    string
-	isLib   bool // started by library code (not by the harness)
-	connTag *Value
+	id        int
+	state     gState
+	wake      chan struct{}
+	top       *Frame
+	wait      *waitState
+	name      string
+	isLib     bool // started by library code (not by the harness)
+	connTag   *Value
 	exitPanic *targetPanic
 }
 
@@ -60,8 +60,8 @@ type mutexState struct {
 
 type timerV struct {
 	when   int64
-	fn     Value   // AfterFunc callback
-	ch     *ChanV  // NewTimer channel
+	fn     Value  // AfterFunc callback
+	ch     *ChanV // NewTimer channel
 	active bool
 	id     int
 	cell   *Value // the *time.Timer object
